@@ -166,9 +166,48 @@ func TestC07_Lifespans(t *testing.T) {
 			}
 			toks = append(toks, issued{grant, access, refresh, now})
 		}
-		flow := rapid.SampledFrom([]string{"code", "code", "implicit", "cc", "password", "jwt", "device"}).Draw(rt, "flow")
+		flow := rapid.SampledFrom([]string{"code", "code", "implicit", "hybrid", "hybrid", "cc", "password", "jwt", "device"}).Draw(rt, "flow")
 		var refreshTok string
+		// lifetime source "session-provided": the integrator's session may pre-set the expiry of the access token that
+		// the authorization endpoint issues (implicit / hybrid); the token endpoint computes its own
+		var authzSess fosite.Session
+		sessionAT := time.Duration(0)
+		if (flow == "implicit" || flow == "hybrid") && rapid.IntRange(0, 2).Draw(rt, "sessionProvidedExpiry") == 0 {
+			sessionAT = 913 * time.Second
+			ss := h.NewSess("user-1")
+			ss.SetExpiresAt(fosite.AccessToken, h.Now().Add(sessionAT))
+			authzSess = ss
+			logf("session pre-sets the access token expiry to now+%v", sessionAT)
+			h.Label("life/session-provided-expiry")
+		}
 		switch flow {
+		case "hybrid":
+			rtype := rapid.SampledFrom([]string{"code token", "code id_token token", "code id_token"}).Draw(rt, "hybridType")
+			ar := w.Authorize(url.Values{"client_id": {"life"}, "response_type": {rtype}, "state": {"state-0123456789"}, "nonce": {"nonce-0123456789"}, "redirect_uri": {redirectURI}, "scope": {"openid offline a"}}, h.Consent{Session: authzSess})
+			var secs int64
+			fmt.Sscan(ar.Params.Get("expires_in"), &secs)
+			logf("hybrid %q -> %v code=%v access=%v expires_in=%d", rtype, ar.Err, ar.Code != "", ar.Access != "", secs)
+			if ar.Access != "" || ar.IDToken != "" {
+				if sessionAT > 0 {
+					over["implicit/at"] = sessionAT
+				}
+				checkResp("implicit", ar.Access, secs, "", ar.IDToken)
+				if sessionAT > 0 {
+					delete(over, "implicit/at")
+					if cfg.ImplicitGrantAccessTokenLifespan != nil {
+						over["implicit/at"] = *cfg.ImplicitGrantAccessTokenLifespan
+					}
+				}
+			}
+			if ar.Code != "" {
+				h.Advance(time.Duration(rapid.SampledFrom([]int{0, 1, 40, 170}).Draw(rt, "beforeRedeem")) * time.Second)
+				tr := w.Token(url.Values{"grant_type": {"authorization_code"}, "code": {ar.Code}, "redirect_uri": {redirectURI}}, w.BasicFor("life"), h.TokenOpts{})
+				logf("redeem the hybrid code -> %v expires_in=%d", tr.Err, tr.ExpiresIn)
+				if tr.OK() {
+					checkResp("code", tr.Access, tr.ExpiresIn, tr.Refresh, tr.IDToken)
+					refreshTok = tr.Refresh
+				}
+			}
 		case "code":
 			ar := w.Authorize(url.Values{"client_id": {"life"}, "response_type": {"code"}, "state": {"state-0123456789"}, "nonce": {"nonce-0123456789"}, "redirect_uri": {redirectURI}, "scope": {"openid offline a"}}, h.Consent{})
 			tr := w.Token(url.Values{"grant_type": {"authorization_code"}, "code": {ar.Code}, "redirect_uri": {redirectURI}}, w.BasicFor("life"), h.TokenOpts{})
@@ -178,11 +217,14 @@ func TestC07_Lifespans(t *testing.T) {
 				refreshTok = tr.Refresh
 			}
 		case "implicit":
-			ar := w.Authorize(url.Values{"client_id": {"life"}, "response_type": {"id_token token"}, "state": {"state-0123456789"}, "nonce": {"nonce-0123456789"}, "redirect_uri": {redirectURI}, "scope": {"openid a"}}, h.Consent{})
+			ar := w.Authorize(url.Values{"client_id": {"life"}, "response_type": {"id_token token"}, "state": {"state-0123456789"}, "nonce": {"nonce-0123456789"}, "redirect_uri": {redirectURI}, "scope": {"openid a"}}, h.Consent{Session: authzSess})
 			var secs int64
 			fmt.Sscan(ar.Params.Get("expires_in"), &secs)
 			logf("implicit flow -> %v expires_in=%d", ar.Err, secs)
 			if ar.Access != "" {
+				if sessionAT > 0 {
+					over["implicit/at"] = sessionAT
+				}
 				checkResp("implicit", ar.Access, secs, "", ar.IDToken)
 			}
 		case "cc":
